@@ -147,7 +147,8 @@ def deselectAll (s : Sel) : Sel := { s with selected := [] }
 def numSelected (s : Sel) : Nat := s.selected.length
 
 /-- `get_selected_indices_and_items`; `none` = the `panic!("model:act_output: ..")`.
-    Note that the index pushed for the cursor item is the POSITION in the list, as in the source. -/
+    The index pushed for the cursor item is the item's own index (its position in the input), like the indices of the
+    selected items (before the fix 2308cdf it was the ROW of the cursor). -/
 def accept (s : Sel) (cursor : Nat) : Option (List Nat × List Item) :=
   let selectCursor := !s.multi || s.selected.isEmpty
   let items := s.selected.map (·.2)
@@ -155,7 +156,7 @@ def accept (s : Sel) (cursor : Nat) : Option (List Nat × List Item) :=
   if selectCursor && !s.listed.isEmpty then
     match s.listed[cursor]? with
     | none => none
-    | some cur => some (idxs ++ [cursor], items ++ [cur.item])
+    | some cur => some (idxs ++ [cur.idx], items ++ [cur.item])
   else some (idxs, items)
 
 /-! ### global.rs: run numbers -/
